@@ -106,6 +106,14 @@ def build_raw(c):
         factors.append(Factor(fn, *[variables[v] for v in f], name="f%d" % k,
                               arg_names=["a%d" % j for j in range(len(f))], **kw))
     graph = FactorGraph(factors)
+    if c.get("fad"):
+        # every factor starts from the same message per variable: the real constructor used by declarative graphs
+        rows = {}
+        for f in c["init"]:
+            for row in f:
+                rows[row[0]] = row
+        dists = dict(mk_mf(list(rows.values()), variables, plated))
+        return variables, index, factors, EPMeanField.from_approx_dists(graph, dists), pl, plated
     fmf = {factors[k]: mk_mf(f, variables, plated) for k, f in enumerate(c["init"])}
     return variables, index, factors, EPMeanField(graph, fmf), pl, plated
 
@@ -124,6 +132,9 @@ def run_raw(c):
     variables, index, factors, approx, pl, plated = build_raw(c)
     out = {"state0": state_obs(approx, factors, index), "global0": nat(approx.mean_field, index), "steps": []}
     base = approx
+    # every EPMeanField object produced so far with the messages it had when it was produced (what a
+    # history entry / a caller holding an older approximation sees)
+    retained = [[approx, state_bits(approx, factors, index)]]
     for s in c["steps"]:
         f = factors[s["f"]]
         if s.get("barrier"):
@@ -187,7 +198,16 @@ def run_raw(c):
                 pa = approx2.factor_approximation(g_)
                 post.append({"cavity": nat(pa.cavity_dist, index), "own": nat(pa.factor_dist, index),
                              "model": nat(pa.model_dist, index)})
+        if approx2 is approx:
+            for rt in retained:
+                if rt[0] is approx2:
+                    rt[1] = after
+        else:
+            retained.append([approx2, after])
+        retained_changed = [k for k, (obj, snap) in enumerate(retained)
+                            if obj is not approx2 and state_bits(obj, factors, index) != snap]
         out["steps"].append({
+            "retained_changed": retained_changed, "n_retained": len(retained),
             "post": post, "global_alias": nat(approx2.model_dist, index),
             "cavity": pre["cavity"], "own": pre["own"], "model": pre["model"],
             "msg": nat(approx2.factor_mean_field[f], index), "global": nat(approx2.mean_field, index),
